@@ -89,17 +89,33 @@ def _stdlib_transitions_under_lock(repo):
 
 
 def _wake_orders(repo):
+    import ast
     out = []
     out += S.check_wait_clear(repo, "retry._submit_wait", ["C03", "C05", "C11"], [])
     out += S.check_wait_clear(repo, "poll._poll_loop", ["C03", "C08", "C11"], ["_run_poll_fn"])
     out += S.check_wait_clear(repo, "throttle._submit_loop", ["C03", "C07", "C11"], ["_submit_loop_iter"])
     out += S.check_wait_clear(repo, "timeout.TimeoutExecutor._job_loop", ["C03", "C09", "C11"], ["_job_loop_iter"])
     out += S.check_no_foreign_clear(repo, {"retry._submit_wait", "poll._poll_loop", "throttle._submit_loop",
-                                           "timeout.TimeoutExecutor._job_loop"},
+                                           "timeout.TimeoutExecutor._job_loop", "throttle.ThrottleExecutor._block_until_ready"},
                                     ["C03", "C05", "C07", "C08", "C09"])
+    # blocking submit of the throttle executor: a waiter other than the worker
+    out += S.check_sole_waiter(repo, {"_event", "_poll_event", "_submit_event", "_jobs_write"},
+                               {"retry._submit_wait", "poll._poll_loop", "throttle._submit_loop", "timeout.TimeoutExecutor._job_loop"}, ["C07", "C03"])
+    # the blocked submitter has an event of its own (cleared and waited on by _block_until_ready only; submitters are
+    # serialised by the shutdown gate), set after every removal from the queue
+    out += S.check_sole_waiter(repo, {"_space_event"}, {"throttle.ThrottleExecutor._block_until_ready"}, ["C07"])
+    out += S.check_clear_scan_wait(repo, "throttle.ThrottleExecutor._block_until_ready", "_space_event", ["C07"])
+    out += S.check_set_after_mutation(repo, "throttle._submit_loop_iter", "_to_submit", {"popleft", "pop", "remove", "clear"}, "_space_event", ["C07"],
+                                      "a job taken out of the queue is followed by a wake-up of a blocked submit()")
+    out += S.check_set_after_mutation(repo, "throttle.ThrottleExecutor._do_cancel", "_to_submit", {"popleft", "pop", "remove", "clear"}, "_space_event", ["C07", "C06"],
+                                      "a job cancelled out of the queue is followed by a wake-up of a blocked submit()")
+    removers = sorted(S.short(qn) for qn, f in repo.funcs.items() for n in ast.walk(f.node)
+                      if isinstance(n, ast.Call) and isinstance(n.func, ast.Attribute) and n.func.attr in ("popleft", "pop", "remove", "clear")
+                      and isinstance(n.func.value, ast.Attribute) and n.func.value.attr == "_to_submit")
+    out.append(S.ob("the throttle queue shrinks in _submit_loop_iter and _do_cancel only", "FR",
+                    set(removers) <= {"throttle._submit_loop_iter", "throttle.ThrottleExecutor._do_cancel", "retry.RetryExecutor._pop_job", "retry.RetryExecutor._cancel"}, ["C07"], {"removers": removers}))
     # retry: _submit_loop's only wait sites go through _submit_wait, after the scan under the lock
     f = repo.func("retry._submit_loop")
-    import ast
     waits = [n for n in ast.walk(f.node) if isinstance(n, ast.Call) and getattr(n.func, "attr", None) in ("wait", "clear")]
     out.append(S.ob("W2 retry._submit_loop: waits only through _submit_wait", "WK", not waits, ["C03", "C05"], {"direct": len(waits)}))
     return out
@@ -156,13 +172,50 @@ def _future_handout(repo):
                  {"plain Future() created in": bad})]
 
 
-REPLAYS = [("C02", "every possibly-pending future handed out", "replay/c02_combinator_cancel_waiters.py"),
+def _foreign_under_futlock(repo):
+    """OP-3: code that is not the library's own runs under a library future's re-entrant _me_lock at exactly these call sites:
+       (a) _Future.cancel -> self._me_cancel() (and below it the delegate's cancel() / the poll cancel_fn), bracketed by the
+           cancel-in-progress counter: nested activations see _me_cancelling >= 1 (units `... nested in own cancel()`);
+       (b) RetryExecutor._submit_now -> delegate.submit(): nested cancel() fails, the attempt's callback is registered only after the
+           lock is released (unit `_Future.cancel[RetryFuture, nested in _submit_now's hand-over]`);
+       (c) pure observers of the delegate (running(), done()) and the stdlib base class's own state transitions.
+    Any other call under _me_lock must be to the library's own lock-free helpers."""
+    import ast
+    allowed = {
+        ("common._Future.cancel", "_me_cancel"), ("map.MapFuture._me_cancel", "cancel"), ("retry.RetryExecutor._submit_now", "submit"),
+    }
+    pure = {"done", "cancelled", "running", "append", "super", "debug", "labels", "inc", "dec", "RetryJob", "_pop_job", "_append_job", "_clear_delegate",
+            "set_running_or_notify_cancel", "cancel:super", "set_result:super", "set_exception:super", "set_exception_info:super", "method"}
+    bad, seen = [], set()
+    for qn, f in sorted(repo.funcs.items()):
+        for (nm, held, line, node) in S.facts(repo, f).calls:
+            if "_me_lock" not in held:
+                continue
+            is_super = isinstance(node.func, ast.Attribute) and isinstance(node.func.value, ast.Call) and getattr(node.func.value.func, "id", None) == "super"
+            key = nm + (":super" if is_super else "")
+            if (S.short(qn), nm) in allowed and not is_super:
+                seen.add((S.short(qn), nm))
+                continue
+            if key in pure or nm in pure and not is_super:
+                continue
+            bad.append("%s:%d %s" % (S.short(qn), line, key))
+    writers = sorted(S.writers_of(repo, "_me_cancelling"))
+    return [S.ob("OP-3: foreign code runs under a library future's _me_lock only at the call sites covered by the nested-activation units", "LL",
+                 not bad and seen == allowed, ["C04", "C02"], {"other calls under _me_lock": bad, "expected sites seen": sorted(seen)}),
+            S.ob("the cancel-in-progress counter is written by _Future.__init__ and _Future.cancel only", "FR",
+                 set(writers) <= {"common._Future.__init__", "common._Future.cancel"}, ["C04", "C02"], {"writers": writers})]
+
+
+REPLAYS = [("C07", "SW: the worker's wake-up event", "replay/c07_blocked_submit_wakeup.py"), ("C07", "followed by a wake-up of a blocked submit()", "replay/c07_blocked_submit_wakeup.py"),
+           ("C07", "W2' throttle", "replay/c07_blocked_submit_wakeup.py"),
+           ("C02", "every possibly-pending future handed out", "replay/c02_combinator_cancel_waiters.py"),
            ("C03", "every possibly-pending future handed out", "replay/c02_combinator_cancel_waiters.py")]
 
 STATIC = [
     dict(name="future-handout", props=["C02", "C03"], run=_future_handout),
     dict(name="regions", props=sorted({p for r in REGIONS for p in r["props"]}), run=_regions),
     dict(name="future-state-transitions", props=["C02", "C13", "C05", "C06", "C18", "C01", "C03"], run=_stdlib_transitions_under_lock),
+    dict(name="foreign-code-under-future-lock", props=["C04", "C02"], run=_foreign_under_futlock),
     dict(name="wake-orders", props=["C03", "C05", "C07", "C08", "C09", "C11"], run=_wake_orders),
     dict(name="writer-sets", props=["C13", "C01", "C02", "C06", "C07", "C08", "C14", "C15"], run=_writer_sets),
 ]
